@@ -647,6 +647,7 @@ static rtosc::ThreadLink  *g_f_link = NULL;
 static char                g_f_nested = 0;
 static volatile int        g_f_state = 0;    // 0 armed, 1 nested operation running, 2 nested operation done
 static sigjmp_buf          g_f_jmp;
+static int                 g_f_blocked_seen = 0;
 static const char          PAGE_MSG[] = "/outer\0\0,s\0\0hello\0\0";      // 20 bytes: a message, and a string
 
 static void on_fault(int)
@@ -674,6 +675,9 @@ static void on_watchdog(int) { siglongjmp(g_f_jmp, 1); }
 // returns 0 = the outer operation did not fault (nothing tested), 1 = both operations completed, 2 = blocked
 static int __attribute__((noinline)) interrupted_op(rtosc::ThreadLink *tl, char outer, char nested)
 {
+    // every blocked operation costs a watchdog period: after a few of them in this process the point is made and the
+    // remaining interrupted operations are not attempted any more (reported as "did not fault": result 0)
+    if(g_f_blocked_seen >= 8) return 0;
     if(!g_page) {
         g_page = (char *) mmap(NULL, 4096, PROT_READ | PROT_WRITE, MAP_PRIVATE | MAP_ANONYMOUS, -1, 0);
         if(g_page == (char *) MAP_FAILED) { g_page = NULL; return 0; }
@@ -684,18 +688,22 @@ static int __attribute__((noinline)) interrupted_op(rtosc::ThreadLink *tl, char 
     g_f_link = tl;
     g_f_nested = nested;
     g_f_state = 0;
-    struct sigaction sa, old_segv, old_alrm;
+    struct sigaction sa, old_segv, old_alrm, old_vtalrm;
     memset(&sa, 0, sizeof(sa));
     sa.sa_handler = on_fault;
     sa.sa_flags = SA_NODEFER;
     sigaction(SIGSEGV, &sa, &old_segv);
     sa.sa_handler = on_watchdog;
     sigaction(SIGALRM, &sa, &old_alrm);
-    struct itimerval on = {{0, 0}, {0, 400000}}, off = {{0, 0}, {0, 0}};
+    sigaction(SIGVTALRM, &sa, &old_vtalrm);
+    // two watchdogs: 200 ms of CPU time of this process (a spinning wait; not fooled by a loaded machine that does not
+    // schedule the process for a while) and 3 s of wall-clock time (a sleeping wait, e.g. a mutex)
+    struct itimerval on = {{0, 0}, {0, 200000}}, on_real = {{0, 0}, {3, 0}}, off = {{0, 0}, {0, 0}};
     volatile int result = 0;
     if(sigsetjmp(g_f_jmp, 1) == 0) {
         mprotect(g_page, 4096, PROT_NONE);
-        setitimer(ITIMER_REAL, &on, NULL);
+        setitimer(ITIMER_VIRTUAL, &on, NULL);
+        setitimer(ITIMER_REAL, &on_real, NULL);
         rtosc_arg_t a[1];
         a[0].s = g_page;
         switch(outer) {
@@ -703,16 +711,20 @@ static int __attribute__((noinline)) interrupted_op(rtosc::ThreadLink *tl, char 
             case 'a': rte::tl_write_array(tl, "/outer", "s", a); break;
             default:  rte::tl_raw_write(tl, g_page); break;
         }
+        setitimer(ITIMER_VIRTUAL, &off, NULL);
         setitimer(ITIMER_REAL, &off, NULL);
         result = g_f_state == 2 ? 1 : 0;
     } else {
+        setitimer(ITIMER_VIRTUAL, &off, NULL);
         setitimer(ITIMER_REAL, &off, NULL);
         result = 2;
+        ++g_f_blocked_seen;
     }
     mprotect(g_page, 4096, PROT_READ | PROT_WRITE);
     g_f_link = NULL;
     sigaction(SIGSEGV, &old_segv, NULL);
     sigaction(SIGALRM, &old_alrm, NULL);
+    sigaction(SIGVTALRM, &old_vtalrm, NULL);
     return result;
 }
 
